@@ -843,6 +843,112 @@ def run_cl_property(prop, tier):
     return finish(prop, tier, ev, violations, "events=%d known=%d" % (nev, len(seenk)), t0)
 
 
+# ----------------------------------------------------------------------------
+# replay of one recorded violation, and the binding demonstrations
+# ----------------------------------------------------------------------------
+def replay_one(prop, path):
+    v = json.load(open(path))
+    build_harness()
+    ensure_layouts()
+    if "steps" in v and "inst" in v:
+        cases = os.path.join(BUILD, "replay_one.ndjson")
+        with open(cases, "w") as f:
+            f.write(json.dumps(v["steps"]) + "\n")
+        rep = os.path.join(BUILD, "replay_one.json")
+        sh([ZKV, "replay", cases, rep, "--flip-stride", "1", "--threads", "1", "--chunks", str(v["inst"]["chunk"])],
+           env={"ZKV_LAYOUTS": LAYOUTS, "VERIF_SEED": str(v["inst"]["seed"])}, timeout=3000)
+        r = json.load(open(rep))
+        mm = [m for m in r["mismatches"] if m["property"] == prop]
+        if mm:
+            print("VIOLATION property=%s replay=%s" % (prop, path))
+            print("  reproduced: %s expected=%s observed=%s" % (mm[0]["what"], mm[0]["expected"][:60], mm[0]["observed"][:60]))
+            return 1
+        print("not reproduced on the current tree: %s" % path)
+        return 0
+    if "trace" in v and os.path.exists(v["trace"]):
+        if prop in CL:
+            ok, matched, ev = cl_validate(v["trace"], "{}", "replay_trace")
+        elif prop == "C07":
+            rc, o = tlc("Trace_Rng", RNG_TRACE_CFG, "replay_trace", workers=1, extra_env={"TRACE": v["trace"]},
+                        java_opts="-Xss512m -Dtlc2.tool.queue.IStateQueue=StateDeque")
+            ok = "No error has been found" in o
+            ev = None
+        else:
+            ok, n, matched, ev, err = validate_trace(v["trace"], "replay_trace")
+        if not ok:
+            print("VIOLATION property=%s replay=%s" % (prop, path))
+            print("  recorded trace still rejected: %s" % json.dumps(ev)[:300])
+            return 1
+        print("recorded trace accepted by the current specification: %s" % path)
+        return 0
+    print("replay file has no re-executable content (specification-level finding?): %s" % path)
+    return 2
+
+
+def selftest():
+    """binding / non-vacuity demonstrations: every deviation switch makes TLC find the counterexample;
+    a corrupted trace and a flipped expectation are rejected"""
+    build_harness()
+    ensure_layouts()
+    ok = True
+    def expect_violation(module, consts, invs, inv_name, name, init="MCInit"):
+        nonlocal ok
+        rc, out = tlc(module, cfg_text(consts, init=init, invariants=invs), "selftest_" + name, timeout=1800)
+        hit = ("Invariant %s is violated" % inv_name) in out or ("invariant of %s is equal to FALSE" % inv_name) in out
+        print("  [%s] %s with %s: %s" % ("ok" if hit else "FAIL", module, consts.get("Dev"), "counterexample to %s found" % inv_name if hit else "NO counterexample"))
+        ok &= hit
+    print("deviation switches (the as-is behaviour of the pinned tree violates the property in the model):")
+    expect_violation("MC_proof", {"K": 3, "Dev": '{"F1"}', "MechBound": 99, "MaxL": 1, "Rich": "FALSE", "Mode": '"adv"'}, ["C04"], "C04", "F1")
+    expect_violation("MC_blind", {"K": 3, "Dev": '{"F12"}', "MechBound": 99, "MaxL": 1, "MaxM": 1, "Mode": '"adv"'}, ["C06"], "C06", "F12")
+    expect_violation("MC_codec", {"Dev": '{"F2"}', "MaxN": 1}, ["C08"], "C08", "F2", init="Init")
+    expect_violation("MC_codec", {"Dev": '{"F3", "F5"}', "MaxN": 1}, ["C08"], "C08", "F3F5", init="Init")
+    expect_violation("MC_codec", {"Dev": '{"F4"}', "MaxN": 1}, ["C09"], "C09", "F4", init="Init")
+    for dev, inv in (("F7", "C13toy"), ("F8", "C16anchored"), ("F9", "C17noOpenings"), ("F10", "C19masks")):
+        expect_violation("MC_cl", {"Dev": '{"%s"}' % dev, "MaxN": 1, "Bound": 12}, [inv], inv, dev, init="Init")
+    rc, out = tlc("MC_rng", RNG_CFG % "TRUE", "selftest_rng", workers=4)
+    hit = "Invariant Fresh is violated" in out
+    print("  [%s] MC_rng with a shared stream: %s" % ("ok" if hit else "FAIL", "Fresh violated" if hit else "NOT violated"))
+    ok &= hit
+    print("trace binding (Trace_Api):")
+    path = os.path.join(BUILD, "selftest_trace.ndjson")
+    sh([ZKV, "record", path, "--runs", "1", "--events", "200", "--max-l", "12", "--family", "all"], env={"ZKV_LAYOUTS": LAYOUTS, "VERIF_SEED": "7"})
+    evs = [json.loads(l) for l in open(path)]
+    good, n, matched, ev, err = validate_trace(path, "selftest_trace")
+    print("  [%s] recorded trace of %d events accepted" % ("ok" if good else "FAIL", n))
+    ok &= good
+    k = [i for i, e in enumerate(evs) if e["op"] in ("Verify", "ProofVerify", "VerifyBlind")][10]
+    bad = [dict(e) for e in evs]
+    bad[k]["res"] = "Ok" if bad[k]["res"] == "Err" else "Err"
+    p2 = path.replace(".ndjson", "_flipped.ndjson")
+    open(p2, "w").write("\n".join(json.dumps(e) for e in bad) + "\n")
+    g2, n2, m2, ev2, err2 = validate_trace(p2, "selftest_trace_flipped")
+    hit = (not g2) and m2 == k
+    print("  [%s] result of event %d flipped: rejected at event %s" % ("ok" if hit else "FAIL", k + 1, m2 + 1 if not g2 else "-"))
+    ok &= hit
+    kk = [i for i, e in enumerate(evs) if e["op"] in ("Sign", "BlindSign") and e["res"] == "Ok"][1]
+    p3 = path.replace(".ndjson", "_deleted.ndjson")
+    open(p3, "w").write("\n".join(json.dumps(e) for i, e in enumerate(evs) if i != kk) + "\n")
+    g3, n3, m3, ev3, err3 = validate_trace(p3, "selftest_trace_deleted")
+    print("  [%s] event %d (a producing call) deleted: %s" % ("ok" if not g3 else "FAIL", kk + 1, "rejected at event %d" % (m3 + 1) if not g3 else "ACCEPTED"))
+    ok &= (not g3)
+    print("replay binding (slice sig):")
+    res, cases = run_slice("sig", "quick", "selftest")
+    lines = open(cases).read().splitlines()[:200]
+    c0 = json.loads(lines[50])
+    c0[-1]["res"] = "Ok" if c0[-1]["res"] == "Err" else "Err"
+    lines[50] = json.dumps(c0)
+    pc = os.path.join(BUILD, "selftest_cases.ndjson")
+    open(pc, "w").write("\n".join(lines) + "\n")
+    rp = os.path.join(BUILD, "selftest_rep.json")
+    sh([ZKV, "replay", pc, rp, "--flip-stride", "0", "--threads", "8"], env={"ZKV_LAYOUTS": LAYOUTS, "VERIF_SEED": "1"})
+    r = json.load(open(rp))
+    hit = len(r["mismatches"]) >= 1 and all(m["case"] == 50 for m in r["mismatches"])
+    print("  [%s] one expected decision flipped: %d mismatch(es), all in that case" % ("ok" if hit else "FAIL", len(r["mismatches"])))
+    ok &= hit
+    print("selftest", "passed" if ok else "FAILED")
+    return 0 if ok else 2
+
+
 def setup():
     build_harness()
     build_harness(cl=True)
@@ -859,6 +965,10 @@ def main(argv):
             return 2
         if argv[0] == "setup":
             return setup()
+        if argv[0] == "selftest":
+            return selftest()
+        if len(argv) >= 3 and argv[1] == "--replay":
+            return replay_one(argv[0], argv[2])
         prop = argv[0]
         if prop not in PROPS:
             print("unknown property", prop)
